@@ -102,6 +102,30 @@ template<bool soft> struct CVm : CompiledVm<AlignedAllocator<CacheLineSize>, sof
 static void nop_fill(Prog& P, Rng& rng) { for (int i = 0; i < 384; ++i) { uint8_t* w = P.buf + 128 + 8 * i; w[0] = (uint8_t)(76 + rng.below(8)); w[1] = (uint8_t)rng.next(); w[2] = (uint8_t)rng.next(); w[3] = (uint8_t)rng.next(); uint32_t z = rng.below(2) ? 0u : (1u << rng.below(32)); memcpy(w + 4, &z, 4); } }
 
 static std::string g_targets;
+
+// branch targets as the x86 JIT encoded them: for every CBRANCH (positions taken from the interpreter's own decode) the
+// jz rel32 that ends its code is resolved back to an instruction index through the compiler's instruction offsets.
+// Unrecognised encodings give an empty list (nothing is claimed about them).
+static std::string g_jtargets = "[]";
+#if !defined(RANDOMX_VERIF_NOJIT) && defined(VERIF_JIT_TARGETS)
+template<class C, class BC> static std::string jit_targets(C& comp, BC& bytecode, int size) {
+	auto offs = std::begin(comp.instructionOffsets);
+	std::string t = "[";
+	for (int i = 0; i < size; ++i) {
+		int v = -2;
+		if (bytecode[i].type == InstructionType::CBRANCH) {
+			const uint8_t* code = comp.code;
+			int32_t end = i + 1 < size ? offs[i + 1] : offs[i] + 20;
+			if (end < 6 || code[end - 6] != 0x0f || code[end - 5] != 0x84) return "[]";
+			int32_t rel; memcpy(&rel, code + end - 4, 4);
+			int32_t dest = end + rel; v = -99;
+			for (int j = 0; j <= i; ++j) if (offs[j] == dest) { v = j - 1; break; }
+		}
+		if (i) t += ","; t += std::to_string(v);
+	}
+	return t + "]";
+}
+#endif
 static void emit_run(const char* engine, bool soft, bool v2, unsigned n, uint32_t fprc0, const Prog& P, const Result& R, bool withProgram, const char* tag) {
 	Line l;
 	l.str("e", "run").str("tag", tag).str("engine", engine).boolean("soft", soft).boolean("v2", v2).num("n", n).num("fprc0", fprc0).w64("patS", g_patS).w64("patD", g_patD);
@@ -110,7 +134,7 @@ static void emit_run(const char* engine, bool soft, bool v2, unsigned n, uint32_
 		int size = v2 ? 384 : 256;
 		std::string ws = "[";
 		for (int i = 0; i < size; ++i) { if (i) ws += ","; ws += json_bytes(P.buf + 128 + 8 * i, 8); }
-		l.raw("words", ws + "]").raw("targets", g_targets);
+		l.raw("words", ws + "]").raw("targets", g_targets).raw("jtargets", g_jtargets);
 	}
 	l.boolean("first", !strcmp(engine, "interp") && soft);
 	l.limbs("reg", R.reg, 256).num("fprc", R.fprc).raw("writes", R.writes).num("nwrites", R.nwrites).w64("whash", R.whash).num("count", (long long)R.count).boolean("oob", R.oob);
@@ -183,9 +207,14 @@ int main(int argc, char** argv) {
 		ds_reset(); Result a = run_one<IVm<true>, false>(is, P, v2, n, fprc0, sp);
 		// the interpreter's compiled bytecode: branch target of every CBRANCH (-2 for other instructions)
 		{ g_targets = "["; int size = v2 ? 384 : 256; for (int i = 0; i < size; ++i) { if (i) g_targets += ","; g_targets += std::to_string(is->bytecode[i].type == InstructionType::CBRANCH ? (int)is->bytecode[i].target : -2); } g_targets += "]"; }
+		Result c; if (cs) { ds_reset(); c = run_one<CVm<true>, true>(cs, P, v2, n, fprc0, sp); }
+		g_jtargets = "[]";
+#if !defined(RANDOMX_VERIF_NOJIT) && defined(VERIF_JIT_TARGETS)
+		if (cs && withProgram) g_jtargets = jit_targets(cs->compiler, is->bytecode, v2 ? 384 : 256);
+#endif
 		emit_run("interp", true, v2, n, fprc0, P, a, withProgram, tag);
 		if (haveHard) { ds_reset(); Result b = run_one<IVm<false>, false>(ih, P, v2, n, fprc0, sp); emit_run("interp", false, v2, n, fprc0, P, b, false, tag); }
-		if (cs) { ds_reset(); Result c = run_one<CVm<true>, true>(cs, P, v2, n, fprc0, sp); emit_run("jit", true, v2, n, fprc0, P, c, false, tag); }
+		if (cs) emit_run("jit", true, v2, n, fprc0, P, c, false, tag);
 		if (ch && haveHard) { ds_reset(); Result d = run_one<CVm<false>, true>(ch, P, v2, n, fprc0, sp); emit_run("jit", false, v2, n, fprc0, P, d, false, tag); }
 	};
 
@@ -229,7 +258,16 @@ int main(int argc, char** argv) {
 			int n = 0;
 			int len = 3 + (int)rng.below(thorough ? 4 : 3);
 			for (int a = 0; a < len && n < 40; ++a) {
-				int kind = (int)rng.below(13); uint8_t d = (uint8_t)rng.below(3), s2 = (uint8_t)((d + 1 + rng.below(2)) % 3);
+				int kind = (int)rng.below(15); uint8_t d = (uint8_t)rng.below(3), s2 = (uint8_t)((d + 1 + rng.below(2)) % 3);
+				// between the elements: IMUL_RCP with a zero / power-of-two divisor on r0-r2 (a no-op that is NOT a register write, 5.2.8)
+				if (rng.below(2) && n < 40) put(P, n++, 76, (uint8_t)(rng.below(3) | (rng.next() & 0xf8)), (uint8_t)rng.next(), (uint8_t)rng.next(), rng.below(3) ? (1u << rng.below(32)) : 0u);
+				if (kind >= 13) { // V(d): an instruction that leaves the value of d unchanged but IS a write of d for the last-writer table
+					static const uint8_t vop[] = { 106, 106, 114, 86, 23, 46 };   // IROR_R, IROR_R, IROL_R, IXOR_R, ISUB_R, IMUL_R with src = dst (immediate operand)
+					int w = (int)rng.below(6); uint32_t im = w < 3 ? 64u * rng.below(4) : (w == 5 ? 1u : 0u);
+					put(P, n++, vop[w], d, d, (uint8_t)rng.next(), im);
+					if (rng.below(2)) { uint8_t cond = (uint8_t)rng.below(16); put(P, n++, (uint8_t)(214 + rng.below(25)), d, 0, (uint8_t)(cond << 4), (uint32_t)rng.next()); }
+					continue;
+				}
 				if (kind < 3) { // W(d): some writer of d
 					static const uint8_t wr[] = { 0, 16, 23, 39, 46, 62, 66, 71, 84, 86, 101, 106, 114, 76 };
 					uint8_t op = wr[rng.below(14)]; uint32_t im = imm_value(rng); if (op == 76 && (im == 0 || (im & (im - 1)) == 0)) im = 3;
